@@ -16,6 +16,7 @@ type c12Case struct {
 	Stmt  *lib.Stmt  `json:"stmt"`
 	Pairs []lib.Pair `json:"pairs"` // prior state
 	Polls string     `json:"polls"`
+	Batch int        `json:"batch"` // PlanBatchSize (0 = 32): the writes must not depend on it
 	Query string     `json:"query"`
 }
 
@@ -93,7 +94,10 @@ func checkC12(c *c12Case) (msg string, nontrivial bool, labels []string) {
 		return "", false, []string{"skipped-not-evaluable"}
 	}
 	in := lib.NewInstr(lib.NewStore(c.Pairs))
-	cfg := lib.Cfg{Mode: "row", Batch: 32, Cache: true}
+	cfg := lib.Cfg{Mode: "row", Batch: c.Batch, Cache: true}
+	if cfg.Batch <= 0 {
+		cfg.Batch = 32
+	}
 	b := lib.Build(q, in, cfg)
 	if b.Panic != "" {
 		return fmt.Sprintf("planning %q panicked: %s", q, b.Panic), true, labels
@@ -260,12 +264,12 @@ func TestC12(t *testing.T) {
 				}
 			}
 		}
-		c := &c12Case{Stmt: st, Pairs: pairs, Polls: genPolls(rt)}
+		c := &c12Case{Stmt: st, Pairs: pairs, Polls: genPolls(rt), Batch: rapid.SampledFrom([]int{1, 2, 3, 32}).Draw(rt, "batch")}
 		lib.Journal("C12", "c12", c)
 		msg, nt, labels := checkC12(c)
 		labels = append(labels, "stmt="+st.Kind)
-		lib.Stats.Case(nt, c.Query+"|"+fmt.Sprint(pairs, c.Polls), labels, func() any {
-			return map[string]any{"query": c.Query, "prior_pairs": len(pairs), "polls": c.Polls}
+		lib.Stats.Case(nt, c.Query+"|"+fmt.Sprint(pairs, c.Polls, c.Batch), labels, func() any {
+			return map[string]any{"query": c.Query, "prior_pairs": len(pairs), "polls": c.Polls, "batch": c.Batch}
 		})
 		if msg != "" {
 			fail(rt, "C12", "c12", msg, c)
